@@ -206,8 +206,10 @@ theorem cover_filter_sound (hm : IsMetric δ) {q r : Nat} {ub : List K} {Off : L
 
 end
 
-/-- **`cover_query_exact`** : on a well-formed tree over the samples `0..N-1` (with at least two samples, so that
-    the top node has children) and for every metric, if the batch query answers then every sample `q` has a result
+/-- **`cover_query_exact`** (partial correctness: a statement about answers `= some res` of the fuelled model;
+    that the fuel suffices is not proved — `exTree_query` shows an answer) : on a well-formed tree over the samples
+    `0..N-1` (with at least two samples, so that the top node has children) and for every metric, if the batch
+    query answers then every sample `q` has a result
     and every result is `q :: cands` with `cands` duplicate free, inside the sample set and containing every
     sample near `q`. -/
 theorem cover_query_exact {K : Type} [LinearOrder K] [AddCommGroup K] [IsOrderedAddMonoid K] {δ : Nat → Nat → K}
@@ -220,7 +222,8 @@ theorem cover_query_exact {K : Type} [LinearOrder K] [AddCommGroup K] [IsOrdered
       ∀ q ∈ top.leaves, ∃ r ∈ res, r.head? = some q :=
   batchQuery_good hm hK leafScale hperm hwf htopc h
 
-/-- **`cover_tree_exact`** : the cover-tree neighbour search is exact — for every well-formed tree, every metric,
+/-- **`cover_tree_exact`** (partial correctness, as `cover_query_exact`) : the cover-tree neighbour search is exact —
+    for every well-formed tree, every metric,
     every `k < N`, every result of the batch query and every `partial_sort` outcome of the wrapper, the list
     returned for sample `q` is the exact k-NN list of `q`. -/
 theorem cover_tree_exact {K : Type} [LinearOrder K] [AddCommGroup K] [IsOrderedAddMonoid K] {δ : Nat → Nat → K}
@@ -239,6 +242,37 @@ theorem cover_tree_exact {K : Type} [LinearOrder K] [AddCommGroup K] [IsOrderedA
     simp only [Bool.and_eq_true, List.all_eq_true, decide_eq_true_eq] at hwf
     exact List.mem_range.2 (hwf.2 q hq')
   exact cover_wrapper_exact_near List.nodup_range hqN (by simpa using hk) hgc hlt hl
+
+/-! non-vacuity of `cover_query_exact` / `cover_tree_exact`: the tree the real `batch_create` builds for the four
+    samples 0, 3, 4, 9 of the integer line (dumped by the harness), `K0 = 2` (k = 1) -/
+
+/-- `|x_a - x_b|` for the samples 0, 3, 4, 9 (indices above 3 stand for sample 3: a pseudo-metric on all of ℕ) -/
+def exδ (a b : Nat) : Int := absI (([0, 3, 4, 9] : List Int).getD (min a 3) 0 - ([0, 3, 4, 9] : List Int).getD (min b 3) 0)
+
+def exTree : CNode Int :=
+  .mk 0 9 0 0 [.mk 0 4 0 4 [.mk 0 0 0 100 [], .mk 1 1 3 9 [.mk 1 0 0 100 [], .mk 2 0 1 100 []]], .mk 3 0 9 100 []]
+
+theorem exδ_metric : IsMetric exδ := by
+  have hfin : ∀ a b : Nat, exδ a b = exδ (min a 3) (min b 3) := fun a b => by simp [exδ, Nat.min_assoc]
+  have hself : ∀ a : Fin 4, exδ a a = 0 := by decide
+  have hsymm : ∀ a b : Fin 4, exδ a b = exδ b a := by decide
+  have htri : ∀ a b c : Fin 4, exδ a c ≤ exδ a b + exδ b c := by decide
+  have hlt : ∀ a : Nat, min a 3 < 4 := fun a => by omega
+  refine ⟨fun x => ?_, fun x y => ?_, fun x y z => ?_⟩
+  · rw [hfin]; exact hself ⟨min x 3, hlt x⟩
+  · rw [hfin x y, hfin y x]; exact hsymm ⟨min x 3, hlt x⟩ ⟨min y 3, hlt y⟩
+  · rw [hfin x z, hfin x y, hfin y z]
+    exact htri ⟨min x 3, hlt x⟩ ⟨min y 3, hlt y⟩ ⟨min z 3, hlt z⟩
+
+/-- the hypotheses hold and the model answers (the result equals the candidate sets the real query returned) -/
+theorem exTree_query :
+    wfTree exδ 4 exTree = true ∧ exTree.children ≠ [] ∧
+      batchQuery exδ id 2 100 exTree = some [[3, 3, 2], [2, 1, 2], [1, 1, 2], [0, 0, 1]] := by decide
+
+/-- hence, e.g., the neighbour list selected for sample 3 (x = 9) from its candidates `[3, 2]` is its exact 1-NN list -/
+example : IsExactKnn exδ (List.range 4) 1 3 (coverSelect exδ 3 1 [3, 2]) :=
+  cover_tree_exact exδ_metric (by decide) 100 (fun l => List.Perm.refl l) exTree_query.1 exTree_query.2.1
+    exTree_query.2.2 (by decide) (coverSelect_admissible exδ 3 1 [3, 2]).2 (coverSelect_admissible exδ 3 1 [3, 2]).1
 
 /-- **F-COVER-COPY, Lean-checked**: with `query_chi->max_dist` counted once (the code before the repair) the
     copy-step pruning statement is false — witness: 7 samples in 3-D under L∞ found on the real code
